@@ -43,7 +43,7 @@ ASSUMPTIONS = [
 PROBES = ["invivo_pipeline_reads_checked", "invivo_restored_items_checked", "invivo_xprocess_items_checked", "resave_then_get", "get_from_disk", "save_crossed_max_rows", "resave_exported_item",
           "restart_clean", "restart_unclean", "multi_bundle", "item_cache_evicted", "bundle_cache_evicted",
           "absent_read", "fault_write_enospc", "fault_write_torn", "fault_read_eio", "fault_reported",
-          "read_after_fault_ok", "restart_after_fault", "dict_restore", "xprocess_restart", "numpy_integer_key"]
+          "read_after_fault_ok", "restart_after_fault", "dict_restore", "xprocess_restart", "numpy_integer_key", "two_failed_writes_in_one_op"]
 # the same check again, smaller, in interpreters started with assertions stripped (python -O / PYTHONOPTIMIZE=1)
 ENV_VARIANTS = [{"name": "python-O", "env": {"PYTHONOPTIMIZE": "1"}, "runs": {'quick': 900, 'thorough': 9000}}]
 TIERS = {
@@ -182,7 +182,12 @@ def generate(rng, k):
                   if (f.startswith("write") and op["op"] in ("save", "export", "export_indexing", "full_export"))
                   or (f == "read_eio" and op["op"] in ("get", "restart", "get_all"))]
             if fk:
-                op["faults"] = [{"kind": rng.choice(fk), "nth": rng.choice([0, 0, 1]), "frac": rng.choice([0.1, 0.5, 0.9])}]
+                op["faults"] = [{"kind": rng.choice(fk), "nth": rng.choice([0, 0, 1]), "frac": rng.choice([0.1, 0.5, 0.9]),
+                                 "plain": rng.random() < 0.5}]
+                if op["op"] == "full_export" and op["faults"][0]["kind"].startswith("write") and faults_left > 1 and rng.random() < 0.5:
+                    # the disk fills up in the middle of an export: bundle AND index write fail, with the same error text
+                    op["faults"] = [dict(op["faults"][0], nth=0, plain=True), dict(op["faults"][0], nth=1, plain=True)]
+                    faults_left -= 1
                 faults_left -= 1
         ops.append(op)
     return ops
@@ -572,9 +577,13 @@ def execute(trace):
             M["index_at_risk"] = True
             M["index_fresh"] = False
         if fired or arrow_err:
-            reported = err is not None or bool(out.strip())
+            # EVERY failed write of this op must be reported: an exception ends the op, otherwise one message per failure
+            n_msgs = out.count("(injected") + out.count("Conversion failed")
+            reported = err is not None or (bool(out.strip()) and n_msgs >= len(fired) + (1 if arrow_err else 0))
             if reported:
                 hit("fault_reported")
+                if len(fired) > 1:
+                    hit("two_failed_writes_in_one_op")
             else:
                 return {"step": step, "cls": "silent_write_failure",
                         "detail": {"op": _short(op), "fired": fired, "arrow_errors": arrow_err, "output": out}}
